@@ -1,6 +1,9 @@
 package main
 
 import (
+	"time"
+	"sync"
+	"os/exec"
 	"path/filepath"
 	"os"
 	"bytes"
@@ -897,6 +900,7 @@ func runC11(prop string, res *Result, pool *DrvPool, r *Rng) {
 		runCase(i, input, pass, termEnd, sched)
 	}
 	runC11Process(res, r.Fork())
+	runC11Pipes(res, r.Fork())
 }
 
 // runC11Process: the same requirement at the level of the pp filter
@@ -904,6 +908,116 @@ func runC11(prop string, res *Result, pool *DrvPool, r *Rng) {
 // alternates marker lines and dumps; at every Read of the underlying source (a
 // point where a live source may block for ever) every marker line delivered in
 // full so far must already be in the output.
+// runC11Pipes: the pp command itself on OS pipes.  The producer writes one piece, then waits (with
+// a generous bound) until every complete pass-through line written so far has come out of pp's
+// stdout before it writes the next piece.  What the library-level theorems cannot show - that
+// nothing between the library and the terminal (stdin wrapping, stdout buffering) holds text back -
+// is observed here on the real process.
+func runC11Pipes(res *Result, r *Rng) {
+	repo := os.Getenv("VERIF_REPO")
+	if repo == "" {
+		repo = "/repo"
+	}
+	tmp, err := os.MkdirTemp("", "verif-c11-pp-")
+	if err != nil {
+		return
+	}
+	defer os.RemoveAll(tmp)
+	exe := filepath.Join(tmp, "pp")
+	build := exec.Command("go", "build", "-o", exe, ".")
+	build.Dir = repo
+	build.Env = append(os.Environ(), "GOFLAGS=-mod=mod", "GOPROXY=off", "GOSUMDB=off", "GOTOOLCHAIN=local")
+	if out, err := build.CombinedOutput(); err != nil {
+		res.Extra["pipes"] = "cannot build the command: " + clip(string(out))
+		return
+	}
+	runs := countN(res.Tier, 3, 40)
+	for run := 0; run < runs; run++ {
+		cmd := exec.Command(exe, "-no-color", "-rebase=false", "-parse=false")
+		stdin, _ := cmd.StdinPipe()
+		stdout, _ := cmd.StdoutPipe()
+		cmd.Stderr = io.Discard
+		if err := cmd.Start(); err != nil {
+			res.Extra["pipes"] = "cannot start the command: " + err.Error()
+			return
+		}
+		var mu sync.Mutex
+		var got bytes.Buffer
+		done := make(chan struct{})
+		go func() {
+			buf := make([]byte, 4096)
+			for {
+				n, err := stdout.Read(buf)
+				mu.Lock()
+				got.Write(buf[:n])
+				mu.Unlock()
+				if err != nil {
+					close(done)
+					return
+				}
+			}
+		}()
+		waitFor := func(line string) bool {
+			deadline := time.Now().Add(10 * time.Second)
+			for time.Now().Before(deadline) {
+				mu.Lock()
+				ok := strings.Contains(got.String(), line)
+				mu.Unlock()
+				if ok {
+					return true
+				}
+				time.Sleep(2 * time.Millisecond)
+			}
+			return false
+		}
+		violation := ""
+		step := func(piece string, mustShow []string) {
+			if violation != "" {
+				return
+			}
+			io.WriteString(stdin, piece)
+			for _, l := range mustShow {
+				if !waitFor(l) {
+					violation = fmt.Sprintf("the line %q was written to pp's stdin in full, the producer then paused, and the line did not appear on pp's stdout within 10 s", l)
+					return
+				}
+			}
+		}
+		n := 0
+		mark := func() string { n++; return fmt.Sprintf("live marker %d of run %d", n, run) }
+		// plain lines, one at a time and several in one write, then a line completed by a second write
+		a, b, c, d := mark(), mark(), mark(), mark()
+		step(a+"\n", []string{a})
+		step(b+"\n"+c+"\n", []string{b, c})
+		step(d[:5], nil)
+		step(d[5:]+"\n", []string{d})
+		// a dump followed by text: the text after it is released once its line is complete
+		// (a plain dump: an indented one, or one ending in an unavailable stack, makes the command stop
+		// with the documented error at the next line - see C07)
+		dump := fmt.Sprintf("goroutine %d [running]:\nmain.f(0x%x)\n\t/a/b.go:12 +0x1\n\ngoroutine %d [select]:\nmain.g()\n\t/a/c.go:%d +0x2\n\n", 1+r.Intn(50), r.Intn(1000), 60+r.Intn(50), 1+r.Intn(500))
+		e := mark()
+		step(dump, nil)
+		step(e+"\n", []string{e})
+		f := mark()
+		step(f+"\n", []string{f})
+		stdin.Close()
+		select {
+		case <-done:
+		case <-time.After(10 * time.Second):
+			if violation == "" {
+				violation = "pp did not terminate within 10 s after its stdin was closed"
+			}
+		}
+		cmd.Process.Kill()
+		cmd.Wait()
+		res.Count("pp-pipe-runs")
+		if violation != "" {
+			res.Violation(Finding{Stream: "pp on pipes", What: violation, Op: map[string]interface{}{"command": "pp -no-color -rebase=false -parse=false", "run": run}})
+			return
+		}
+	}
+}
+
 func runC11Process(res *Result, r *Rng) {
 	_, _, base := verifhooks.PathFormats()
 	for i := 0; i < countN(res.Tier, 250, 6000); i++ {
